@@ -12,5 +12,9 @@ mod c19_bbox;
 mod c20_constraints;
 #[cfg(kani)]
 mod c07_kalman;
+#[cfg(kani)]
+mod c16_features;
+#[cfg(kani)]
+mod c08_geometry;
 #[cfg(all(kani, test))]
 mod playback;
